@@ -42,6 +42,10 @@ def toy_amp(x):
     return 8 + 4 * (max(abs(v) for v in x) // 4)
 
 
+class ToyDomainError(Exception):
+    """the toy (exact integer) domain was left: the case is discarded, never reported"""
+
+
 class ToyEnvelope:
     """Stand-in for emd.sift.interp_envelope."""
 
@@ -52,8 +56,9 @@ class ToyEnvelope:
 
     def __call__(self, X, mode='upper', interp_method='splrep', extrema_opts=None, ret_extrema=False):
         xs = np.asarray(X).reshape(-1)
+        if not np.all(np.isfinite(xs)) or np.abs(xs).max(initial=0) > 2.0 ** 50 or not np.all(xs == np.round(xs)):
+            raise ToyDomainError('toy envelope fed a non-integer / overflowing signal')
         x = [int(v) for v in xs]
-        assert all(float(v) == float(w) for v, w in zip(x, xs)), 'toy envelope fed a non-integer signal'
         if mode == 'upper':
             self.calls += 1
         nmax = len(strict_maxima(x))
